@@ -399,6 +399,12 @@ class Parser:
             name = v
             while self.at('::') and self.peek(1)[0] == 'id':
                 self.next(); name += '::' + self.next()[1]
+            if '::' in name and self.at('<'):               # call of a function template: ConfigType::GetObjectsByType<T>()
+                save = self.p
+                if self.skip_angles() and self.at('('):
+                    name += '<>'
+                else:
+                    self.p = save
             return ('id', name)
         if k == 'op' and v == '(':
             # C-style cast to an arithmetic type:  (uint_fast8_t)e  ==  static_cast<uint_fast8_t>(e)
